@@ -71,6 +71,9 @@ for prop in sorted(os.listdir(seeds)):
             shutil.copy(npath, os.path.join(out, "notes.md"))
             notes = open(npath).read()
         first_caught = None if r1 is None or "checks" not in r1 else bool(r1.get("caught_by_own_check"))
+        if r1 is None and letter not in first_of and os.path.exists(os.path.join(out, "meta.json")):
+            # no first-wave result directory given for this letter: keep what was recorded when it was assembled
+            first_caught = json.load(open(os.path.join(out, "meta.json"))).get("own_check_when_the_wave_started")
         meta = {
             "seed": "%s-%s" % (prop, letter),
             "wave": WAVE[letter],
